@@ -324,6 +324,8 @@ def run(rep, ctx):
         c17.r17_5(rep, M, "R18.7")
         option_defaults_agree(rep, M, "R18.7")
         c17.defaults_pass_validation(rep, M, "R18.7")
+        from .. import sigs as _sigs
+        _sigs.run(rep, M, "R18.7", scope=M.reachable([FQ]))
     rep.rule("R18.9", "the search for the atoms inside a candidate cell covers every periodic image the cell reaches into (shared with C04)")
     with rep.guard("R18.9"):
         from . import c04 as _c04w
